@@ -7,6 +7,7 @@ from corankco.algorithms.copeland.copeland import CopelandMethod
 
 
 class Copeland(Suite):
+    scribbled_rate, bench_rate = 0.1, 0.12
     seasoned_rate = 0.12     # share of the cases run on algorithm objects that have served before (algos.seasoned)
     name = "copeland"
     imports = ["Scheme", "Rank", "Judge.JC13"]
@@ -42,10 +43,18 @@ class Copeland(Suite):
         ds = Dataset.from_raw_list([[set(b) for b in r] for r in case["D"]])
         sc = ScoringScheme(case["s"])
         alg = CopelandMethod()
+        if case.get("scribbled"):
+            from algos import scribble
+            scribble(ds)
         if case.get("seasoned"):
             from algos import seasoned
             seasoned(alg, case["D"], case["s"])
-        cons = alg.compute_consensus_rankings(ds, sc, True)
+        # bench_mode=True must give the same consensus and, when it reports the features at all, the same features
+        cons = alg.compute_consensus_rankings(ds, sc, True, True) if case.get("bench") else alg.compute_consensus_rankings(ds, sc, True)
+        if case.get("bench") and not (hasattr(cons, "copeland_scores") and hasattr(cons, "copeland_victories")):
+            plain = alg.compute_consensus_rankings(ds, sc, True)
+            assert [[e.value for e in b] for b in plain.consensus_rankings[0].buckets] == [[e.value for e in b] for b in cons.consensus_rankings[0].buckets]
+            cons = plain
         U = gen.id_order(ds)
         scores = cons.copeland_scores
         vic = cons.copeland_victories
